@@ -1463,6 +1463,96 @@ fn wrapper_scenario(ctx: &mut Ctx) {
     trace_enable(was);
 }
 
+/// A compound asset that stores a value of a reloadable type with `get_or_insert` while it loads.
+#[derive(Debug)]
+struct TInserter(#[allow(dead_code)] i64);
+impl assets_manager::Compound for TInserter {
+    fn load(cache: assets_manager::AnyCache, id: &assets_manager::SharedString) -> Result<Self, assets_manager::BoxedError> {
+        let own = cache.load::<TInt>(&format!("{id}_src"))?.read().0.n;
+        let h = cache.get_or_insert::<TInt>("g", TInt(V::new(700 + own, "inserted")));
+        let n = h.read().0.n;
+        Ok(TInserter(n))
+    }
+}
+
+/// C10 for values stored with `get_or_insert` from inside a loader (on the caller's thread during a
+/// first load, on the reloader's thread during a reload), under a key the reloader has seen loaded
+/// from its file before: the file is edited, a pass runs (a witness loaded from a file edited in
+/// the same notification follows), the stored value and its reload id stay.
+fn inserted_scenario(ctx: &mut Ctx) {
+    let was = trace_is_enabled();
+    trace_enable(false);
+    let never = assets_manager::verif_hooks::reload_id_raw(assets_manager::ReloadId::NEVER);
+    let file = |id: &str| assets_manager::source::OwnedDirEntry::File(id.into(), "x".into());
+    for round in 0..4 {
+        let mem = Mem::new_silent(true);
+        mem.write("g", "x", b"5");
+        mem.write("w", "x", b"1");
+        mem.write("ins_src", "x", b"1");
+        let mut cache = AssetCache::with_source(mem.clone());
+        let what = match round {
+            0 => "a key the reloader never saw",
+            1 => "a key loaded from its file and removed before",
+            2 => "a key loaded from its file before; the cache was cleared",
+            _ => "a key loaded from its file and removed before; stored again by a reload on the reloader's thread",
+        };
+        if round >= 1 {
+            if cache.load::<TInt>("g").is_err() {
+                continue;
+            }
+            if round == 2 {
+                cache.clear();
+            } else {
+                cache.remove::<TInt>("g");
+            }
+        }
+        if cache.load::<TInserter>("ins").is_err() {
+            continue;
+        }
+        let mut expect = 701;
+        if round == 3 {
+            cache.remove::<TInt>("g");
+            mem.write("ins_src", "x", b"2");
+            mem.send(vec![file("ins_src")]);
+            let t0 = std::time::Instant::now();
+            while !cache.contains::<TInt>("g") && t0.elapsed() < std::time::Duration::from_secs(3) {
+                cache.hot_reload();
+                std::thread::sleep(std::time::Duration::from_millis(2));
+            }
+            expect = 702;
+        }
+        let Ok(witness) = cache.load::<TInt>("w") else { continue };
+        let Some(g) = cache.get_cached::<TInt>("g") else { continue };
+        if g.read().0.n != expect {
+            continue;
+        }
+        mem.write("g", "x", b"6");
+        mem.write("w", "x", b"2");
+        mem.send(vec![file("g"), file("w")]);
+        let t0 = std::time::Instant::now();
+        while witness.read().0.n != 2 && t0.elapsed() < std::time::Duration::from_secs(3) {
+            cache.hot_reload();
+            std::thread::sleep(std::time::Duration::from_millis(2));
+        }
+        if witness.read().0.n != 2 {
+            continue;
+        }
+        cache.hot_reload();
+        ctx.wrapper_rounds += 1;
+        let now = g.read().0.n;
+        let rid = assets_manager::verif_hooks::reload_id_raw(g.last_reload_id());
+        if (now != expect || rid != never) && ctx.wrapper_violations.len() < 5 {
+            ctx.wrapper_violations.push(format!(
+                "a value stored with get_or_insert from inside a loader under {what}: the file behind the key was edited and a reload pass ran (a witness edited in the same notification followed): the stored value {expect} is now {now}, reload id moved: {}",
+                rid != never
+            ));
+        }
+    }
+    let _ = take_ledger();
+    let _ = take_trace();
+    trace_enable(was);
+}
+
 /// C05 while the reloader is busy ('static mode): a slow reload is under way; meanwhile an asset is
 /// loaded for the first time (its registration waits in the cache-message channel), its file is
 /// edited and the event sent (it waits in the event channel).  Cache messages are looked at first
@@ -1596,6 +1686,7 @@ pub fn run(a: &Args) {
         key_sweep(if a.thorough() { 40000 } else { 4000 }, &mut ctx);
         if mode != "cold" {
             wrapper_scenario(&mut ctx);
+            inserted_scenario(&mut ctx);
             busy_reload_scenario(&mut ctx);
         }
     }
